@@ -82,6 +82,17 @@ def variant_cases():
             c['uses_qubits'] = len(list(idle.used_qubits)) > 0
             c['unitary'] = idle.ideal_unitary is not None
         cases.append(c)
+    # stretched_gates over a set that already contains the idle gates (update=True returns the merged set)
+    o, comb = outcome(lambda: stretched_gates(add_idle_gates(dict(base)), suffix='_st', update=True))
+    for name, g in base.items():
+        if 'I_' + name not in withidle:
+            continue
+        sg = comb.get(name + '_st') if comb else None
+        ig = comb.get('I_' + name + '_st') if comb else None
+        cases.append({'id': 'idle_st/' + name, 'kind': 'idle_st', 'name': name, 'has': ig is not None, 'has_stretched': sg is not None,
+                      'kinds': project.native(ig)['kinds'] if ig is not None else [], 'parent_kinds': project.native(sg)['kinds'] if sg is not None else [],
+                      'base_kinds': project.native(g)['kinds'], 'uses_qubits': bool(ig is not None and len(list(ig.used_qubits)) > 0),
+                      'unitary': bool(ig is not None and ig.ideal_unitary is not None), 'text': 'stretched_gates(add_idle_gates): ' + name})
     active = gates.active_gates()
     o, st = outcome(lambda: stretched_gates(active, suffix='_st'))
     for name, g in active.items():
